@@ -4102,7 +4102,7 @@ sys_op! {
     /// The file can be written to with [&w].
     /// In some cases, the file may not be actually written to until it is closed with [&cl].
     /// [under][&fo] calls [&cl] automatically.
-    (1, FOpen, Filesystem, "&fo", "file - open"),
+    (1, FOpen, Filesystem, "&fo", "file - open", Mutating),
     /// Create a file and return a handle to it
     ///
     /// ex: &fc "file.txt"
